@@ -664,6 +664,7 @@ package ro
 
 //@ loop DoWhileIWithContext$1$1#0
 //@   iteration ensures count(source.SubscribeWithContext) == 1 && count(attempt.Wait) == 1 && before(source.SubscribeWithContext, attempt.Wait)
+//@   iteration ensures arg(source.SubscribeWithContext, 0) == atiter(currentCtx)
 
 //@ operator WhileIWithContext
 //@   props C15 C09
@@ -899,18 +900,18 @@ package ro
 
 //@ func zipInnerSubscription$3
 //@   note the completion callback of one zipped source
-//@   props C05
+//@   props C05 C09
 //@   binds ctx values destination subscriptions
 //@   track destination.* subscriptions.*
-//@   ensures [a-drained-source-completes-the-output|C05] len(old(values)) == 0 ==> trace(destination.CompleteWithContext(ctx), subscriptions.Unsubscribe())
+//@   ensures [a-drained-source-completes-the-output|C05,C09] len(old(values)) == 0 ==> trace(destination.CompleteWithContext(ctx), subscriptions.Unsubscribe())
 //@   ensures [a-finished-source-with-queued-values-keeps-the-others-subscribed|C05] len(old(values)) > 0 ==> trace()
 
 //@ func zipInnerSubscription$2
 //@   note the error callback of one zipped source: the error ends the output at once and releases every source
-//@   props C05 C07
+//@   props C05 C07 C09
 //@   binds ctx err destination subscriptions
 //@   track destination.* subscriptions.*
-//@   ensures [error-ends-the-output-and-releases-the-others|C05] trace(destination.ErrorWithContext(ctx, err), subscriptions.Unsubscribe())
+//@   ensures [error-ends-the-output-and-releases-the-others|C05,C09] trace(destination.ErrorWithContext(ctx, err), subscriptions.Unsubscribe())
 
 //@ operator Serialize
 //@   props C02 C08
